@@ -618,8 +618,14 @@ func genKeysFam(t *rapid.T, fams []famWeight, sc sizeCap) ([]string, string) {
 			big = sc.huge
 		}
 		s := rapid.IntRange(2, maxS).Draw(t, "shortsize")
-		if s > 7 && sc.slowAPI && pickU(t, "slowapi", 25) != 0 {
-			s = 2 + s%6 // String() is quadratic in the node count: large trees only now and then
+		if sc.slowAPI {
+			// String() is quadratic in the node count: large trees only now and then
+			if s > 5 && pickU(t, "slowapi", 6) != 0 {
+				s = 2 + s%4
+			}
+			if s > 3 && pickU(t, "slowapi2", 5) != 0 {
+				s = 2 + s%2
+			}
 		}
 		keys = genShortTarget(t, s, big)
 	default:
@@ -866,8 +872,12 @@ func genTrieCase(t *rapid.T, g trieGenOpt) *Case {
 	sc := caps()
 	if g.slowAPI {
 		sc.slowAPI = true
+		sc.big = 1500
 		if sc.huge > 20000 {
 			sc.huge = 20000
+		}
+		if !thorough() {
+			sc.huge = 1500
 		}
 	}
 	keys, fam := genKeysFam(t, fams, sc)
